@@ -57,6 +57,19 @@ enum OpKind {
     PruneQueue,
     StoreSentBatch(u32),
     StoreDecryptedTx { mined: bool },
+    /// pool-migration store (SQLite): persist a changed state of the stored live migration
+    MigPersist(MigChange),
+}
+
+#[derive(Clone, Copy, Debug, PartialEq, Eq)]
+enum MigChange {
+    /// terminal transition: status flip + release of the reservations held by never-broadcast rows
+    Superseded,
+    Cancelled,
+    /// lifecycle advance of one transaction (Proved -> Broadcast)
+    Broadcast,
+    /// first persist of a migration for the account
+    Fresh,
 }
 
 impl OpKind {
@@ -82,6 +95,7 @@ impl OpKind {
             OpKind::PruneQueue => "prune".into(),
             OpKind::StoreSentBatch(n) => format!("sent:{n}"),
             OpKind::StoreDecryptedTx { mined } => format!("dtx:{}", *mined as u8),
+            OpKind::MigPersist(c) => format!("mig:{}", *c as u8),
         }
     }
 
@@ -108,6 +122,7 @@ impl OpKind {
             "prune" => OpKind::PruneQueue,
             "sent" => OpKind::StoreSentBatch(n(1) as u32),
             "dtx" => OpKind::StoreDecryptedTx { mined: n(1) != 0 },
+            "mig" => OpKind::MigPersist([MigChange::Superseded, MigChange::Cancelled, MigChange::Broadcast, MigChange::Fresh][n(1) as usize]),
             other => panic!("bad op {other}"),
         }
     }
@@ -133,6 +148,10 @@ impl OpKind {
             OpKind::PruneQueue => "prune_scan_queue_below",
             OpKind::StoreSentBatch(_) => "store_transactions_to_be_sent",
             OpKind::StoreDecryptedTx { .. } => "store_decrypted_tx",
+            OpKind::MigPersist(MigChange::Superseded) => "migration_persist_superseded",
+            OpKind::MigPersist(MigChange::Cancelled) => "migration_persist_cancelled",
+            OpKind::MigPersist(MigChange::Broadcast) => "migration_persist_broadcast",
+            OpKind::MigPersist(MigChange::Fresh) => "migration_persist_first",
         }
     }
 }
@@ -348,6 +367,7 @@ macro_rules! apply_body {
                 .collect();
             db.store_transactions_to_be_sent(&sent).map(|_| String::new()).map_err(|e| format!("{e:?}"))
         }
+        OpKind::MigPersist(_) => Err("migration store operations run on the parent's connection only".to_string()),
         OpKind::StoreDecryptedTx { mined } => {
             let txs = shell_txs(1, cx.prefix + 7);
             let d = zcash_client_backend::data_api::DecryptedTransaction::<_, AccountUuid>::new(
@@ -384,8 +404,65 @@ fn shell_txs(n: u32, salt: u32) -> Vec<zcash_primitives::transaction::Transactio
         .collect()
 }
 
+const MIG_OWNER: [u8; 32] = [0x5A; 32];
+
+/// A live migration with one crossing carried by one PROVED (never broadcast) transfer whose
+/// inputs are reserved under `MIG_OWNER`, as the prover leaves it.
+fn live_migration() -> zcash_pool_migration::engine::MigrationState {
+    use zcash_pool_migration::{
+        denomination::DenominationPlan,
+        engine::{MigrationLockOwner, MigrationState, MigrationStatus, MigrationTransaction, MigrationTransferId, MigrationTxKind, MigrationTxState},
+        preparation::PreparationPlan,
+        satisfiability::ReplanThreshold,
+        scheduling::AnchorBucketInterval,
+    };
+    let value = Zatoshis::from_u64(40_000).unwrap();
+    MigrationState::from_parts(
+        MigrationStatus::InProgress,
+        DenominationPlan::from_stored_parts(vec![value], Zatoshis::ZERO, None, Zatoshis::ZERO, value, value).expect("stored plan"),
+        PreparationPlan::from_parts(Vec::new(), Vec::new()),
+        vec![MigrationTransaction::from_parts(
+            MigrationTransferId::new(0),
+            MigrationTxKind::Transfer { crossing: 0 },
+            vec![0xAB; 4],
+            Vec::new(),
+            BlockHeight::from_u32(10),
+            BlockHeight::from_u32(0),
+            None,
+            TxId::from_bytes([7; 32]),
+            MigrationTxState::Proved,
+            Some(MigrationLockOwner::from_bytes(MIG_OWNER)),
+            None,
+            vec![[9; 32]],
+            None,
+        )],
+        AnchorBucketInterval::ZIP_318,
+        ReplanThreshold::DEFAULT,
+    )
+}
+
+fn apply_migration(sc: &mut Scenario, change: MigChange) -> Result<String, String> {
+    use zcash_client_sqlite::pool_migration::orchard_ironwood::PoolMigrations;
+    use zcash_pool_migration::engine::{MigrationTransferId, PoolMigrationWrite};
+    let net = sc.cx.sim.net;
+    // the Fresh persist targets the second account (no migration stored for it)
+    let account = if change == MigChange::Fresh { sc.cx.accounts[1] } else { sc.cx.accounts[0] };
+    let mut st = live_migration();
+    match change {
+        MigChange::Superseded => st.mark_superseded(),
+        MigChange::Cancelled => st.mark_cancelled(),
+        MigChange::Broadcast => st.mark_broadcast(MigrationTransferId::new(0)),
+        MigChange::Fresh => {}
+    }
+    let mut store = PoolMigrations::for_account(net, zcash_client_sqlite::util::SystemClock, sc.w.db.conn_mut(), account).map_err(|e| format!("{e:?}"))?;
+    store.replace_migration(&st).map(|_| String::new()).map_err(|e| format!("{e:?}"))
+}
+
 /// Applies `op`; Ok(debug string of the result) or Err(error string).
 fn apply(sc: &mut Scenario, op: &OpKind) -> Result<String, String> {
+    if let OpKind::MigPersist(c) = op {
+        return apply_migration(sc, *c);
+    }
     apply_body!(&mut sc.w.db, &sc.cx, op)
 }
 
@@ -408,6 +485,19 @@ fn setup(sc: &mut Scenario, op: &OpKind) {
         }
         OpKind::ClearLocks(_) if !refs.is_empty() => {
             let _ = sc.w.db.lock_outputs(&refs[..refs.len().min(6)], LockOwner::new([9; 32]), expiry);
+        }
+        OpKind::MigPersist(c) if *c != MigChange::Fresh => {
+            use zcash_client_sqlite::pool_migration::orchard_ironwood::PoolMigrations;
+            use zcash_pool_migration::engine::PoolMigrationWrite;
+            // notes reserved under the migration's owner token + the live migration persisted
+            if !refs.is_empty() {
+                let _ = sc.w.db.lock_outputs(&refs[..refs.len().min(2)], LockOwner::new(MIG_OWNER), BlockHeight::from_u32(u32::MAX));
+            }
+            let net = sc.cx.sim.net;
+            let account = sc.cx.accounts[0];
+            if let Ok(mut store) = PoolMigrations::for_account(net, zcash_client_sqlite::util::SystemClock, sc.w.db.conn_mut(), account) {
+                let _ = store.replace_migration(&live_migration());
+            }
         }
         _ => {}
     }
@@ -440,6 +530,10 @@ fn candidate_ops(sc: &Ctx, rng: &mut ChaCha20Rng) -> Vec<OpKind> {
         OpKind::PruneQueue,
         OpKind::StoreSentBatch(rng.gen_range(2..5)),
         OpKind::StoreDecryptedTx { mined: rng.gen_bool(0.5) },
+        OpKind::MigPersist(MigChange::Superseded),
+        OpKind::MigPersist(MigChange::Cancelled),
+        OpKind::MigPersist(MigChange::Broadcast),
+        OpKind::MigPersist(MigChange::Fresh),
     ];
     ops.shuffle(rng);
     ops
